@@ -511,6 +511,9 @@ class Execution:
             self.check_c11()
         if "C10" in self.mon:
             self.check_c10()
+        if "C09" in self.mon:
+            # "no factor involving a moving unit is ever missing or duplicated", judged against the global state
+            self.check_c10(key="C09:factor-coverage")
 
     def on_commit_before(self, before):
         if "C13" in self.mon and self.after_prev is not None and before != self.after_prev:
@@ -756,7 +759,7 @@ class Execution:
                                             sorted(type(h).__name__ for h in self.pending)))
 
     # ---- C10 --------------------------------------------------------------------------------------------------------
-    def check_c10(self):
+    def check_c10(self, key="C10:partition-pending"):
         """At every leg, for every cell system with one interaction family: the targets of the *pending* events of the
         nearby-cells and surplus taggers, plus the occupants of the non-nearby cells when a cell-veto event is pending
         (or the targets of the pending cell-bounding events), are exactly the recorded non-active relevant units, each
@@ -786,12 +789,15 @@ class Execution:
                 self.stats["c10_skipped_cell_systems"] += 1
                 continue
             cells = ist.cells
+            # the other relevant units, taken from the global state (not from the occupancy's own records: a unit the
+            # occupancy has lost must show up as missed)
             expected = collections.Counter()
-            for cell in cells.yield_cells():
-                for ident in ist[cell]:
-                    expected[ident] += 1
-            for cell, lst in ist._surplus.items():
-                for ident in lst:
+            lvl = ist.cell_level
+            for ident, (pos, vel, ts, charge) in self.snap().items():
+                if len(ident) != lvl or ident == aid:
+                    continue
+                unit = type("U", (), {"charge": None if charge is None else dict(charge)})
+                if ist._is_relevant_unit(unit):
                     expected[ident] += 1
             covered = collections.Counter()
             for tg in fam["ExcludedCellsTagger"] + fam.get("SurplusCellsTagger", []):
@@ -814,7 +820,7 @@ class Execution:
                         covered[tuple(target)] += 1
             self.stats["c10_partitions"] += 1
             if covered != expected:
-                self.V("C10:partition-pending", "cell system of %s after %s (active %r in cell %r): the pending "
+                self.V(key, "cell system of %s after %s (active %r in cell %r): the pending "
                        "nearby/surplus/far events cover %s; the other relevant units are %s (missed %s, treated twice %s)"
                        % (far.tag, self.commits[-1][0], aid, acell.identifier, sorted(covered.elements()),
                           sorted(expected.elements()), sorted((expected - covered).elements()),
